@@ -428,7 +428,11 @@ def build_vdi(size=10 * MI, length=1024, fill=1,
 # ----------------------------------------------------------------------- iso
 
 def build_iso(blocks=5120, block_size=2048, ident=b'CD001', dtype=1,
-              system_area=None, tail=2048, fill=1):
+              system_area=None, tail=2048, fill=1, extra=0, extra_type=2,
+              terminator=True):
+    """extra: number of further volume descriptors (boot record 0,
+    supplementary 2, partition 3, ...) that follow the primary one in the
+    volume descriptor set, closed by a set terminator (type 255)."""
     sa = system_area if system_area is not None else b'\0' * (32 * KI)
     sa = sa[:32 * KI].ljust(32 * KI, b'\0')
     pvd = bytearray(rnd(fill, 2048))
@@ -438,12 +442,23 @@ def build_iso(blocks=5120, block_size=2048, ident=b'CD001', dtype=1,
     pvd[80:88] = struct.pack('<I', blocks) + struct.pack('>I', blocks)
     pvd[128:132] = struct.pack('<H', block_size) + struct.pack('>H',
                                                                block_size)
-    data = sa + bytes(pvd) + rnd(fill + 1, tail)
+    vds = b''
+    for i in range(extra):
+        d = bytearray(2048)
+        d[0] = extra_type & 0xff
+        d[1:6] = b'CD001'
+        d[6] = 1
+        d[8:40] = (b'EXTRA DESCRIPTOR %d' % i).ljust(32)
+        vds += bytes(d)
+    if extra and terminator:
+        vds += b'\xffCD001\x01' + bytes(2041)
+    data = sa + bytes(pvd) + vds + rnd(fill + 1, tail)
     primary = dtype == 1 and ident in (b'CD001', b'NSR02', b'NSR03')
     return Img('iso', data,
                dict(blocks=blocks, block_size=block_size,
                     ident=ident.decode('latin-1'), dtype=dtype, tail=tail,
-                    fill=fill,
+                    fill=fill, extra=extra, extra_type=extra_type,
+                    terminator=terminator,
                     system_area=None if system_area is None
                     else system_area[:1024].hex()),
                vsize=blocks * block_size if primary else None,
